@@ -136,6 +136,8 @@ func canPut(s *snap.Snap, blockTime time.Time, msg *baskettypes.MsgPut) putVerdi
 		totalTokens.Add(totalTokens, tok)
 		if d := ref.SigDigits(tok); d > 34 {
 			v.unclear = "token amount needs more than 34 significant digits"
+		} else if spelledDigits(c.Amount) > 34 && v.unclear == "" {
+			v.unclear = "amount is spelled with more than 34 digits (trailing zeros)"
 		}
 	}
 	if totalTokens.Num().BitLen() > 250 {
@@ -162,6 +164,9 @@ func (m *C11) AfterMsg(w *eng.World, st *eng.MsgStep) {
 				eng.G.Count("C11/put-rejected-unclear: "+v.unclear, 1)
 				if strings.Contains(v.unclear, "292") {
 					w.Violation("C11", "put-rejected/window>292y", "Put rejected (%v) although the start date is not earlier than block time minus the window (window exceeds what the chain's duration type can hold)", st.Res.Err)
+				}
+				if strings.Contains(v.unclear, "spelled with more than 34") {
+					w.Violation("C11", "put-rejected/>34-digits-as-spelled", "Put rejected (%v) although every stated condition holds (the amount's value needs <= 34 digits but it is written with more, e.g. trailing zeros)", st.Res.Err)
 				}
 				if strings.Contains(v.unclear, "34 significant") {
 					w.Violation("C11", "put-rejected/>34-digits", "Put rejected (%v) although every stated condition holds (token amount needs > 34 digits)", st.Res.Err)
@@ -371,3 +376,23 @@ func (m *C11) checkBalanceDates(w *eng.World, s *snap.Snap, where string) {
 }
 
 func (m *C11) Finish(*eng.World) bool { return m.boundaryPut || m.outOfOrderTake }
+
+// spelledDigits counts the digits of the mantissa of a decimal string as written (leading zeros
+// dropped, trailing zeros kept): the size of the coefficient the chain's decimal parser builds.
+func spelledDigits(a string) int {
+	if i := strings.IndexAny(a, "eE"); i >= 0 {
+		a = a[:i]
+	}
+	n, lead := 0, true
+	for _, ch := range a {
+		if ch < '0' || ch > '9' {
+			continue
+		}
+		if lead && ch == '0' {
+			continue
+		}
+		lead = false
+		n++
+	}
+	return n
+}
